@@ -104,6 +104,60 @@ func (c *Ctx) RulerPositions(prop string) {
 			return false
 		}
 		good := true
+		// the request list itself stays as the caller handed it over: the caller pairs verdict i with its own entry i
+		seenW := map[*ssa.Function]bool{}
+		var listWritten func(G *ssa.Function, list ssa.Value, depth int)
+		listWritten = func(G *ssa.Function, list ssa.Value, depth int) {
+			if depth > 3 || G.Blocks == nil {
+				return
+			}
+			for _, f := range WithClosures(G) {
+				for _, b := range f.Blocks {
+					for _, ins := range b.Instrs {
+						switch x := ins.(type) {
+						case *ssa.Store:
+							if ia, ok := x.Addr.(*ssa.IndexAddr); ok && sliceRoot(ia.X) == list {
+								good = false
+								c.R.Fail(rule, Fn(f)+":request-list", c.Pos(x), "the ruler writes into the request list it was given: the caller's entry i is no longer the entry verdict i was computed for", "the request list is read-only for the ruler", nil)
+							}
+						case ssa.CallInstruction:
+							cc := x.Common()
+							if _, isB := cc.Value.(*ssa.Builtin); isB {
+								continue
+							}
+							callee := cc.StaticCallee()
+							for k, a := range cc.Args {
+								v := a
+								if mi, ok := v.(*ssa.MakeInterface); ok {
+									v = mi.X
+								}
+								if _, isSlice := v.Type().Underlying().(*types.Slice); !isSlice || sliceRoot(v) != list {
+									continue
+								}
+								if callee != nil && prog.InModule(callee) && !cc.IsInvoke() {
+									// a module helper that is handed the list: examined in turn
+									if k < len(callee.Params) && !seenW[callee] {
+										seenW[callee] = true
+										listWritten(callee, callee.Params[k], depth+1)
+									}
+									continue
+								}
+								if cc.IsInvoke() && namedIs(cc.Value.Type(), pkgRules, "Service") {
+									continue
+								}
+								name := "a dynamic call"
+								if callee != nil {
+									name = callee.String()
+								}
+								good = false
+								c.R.Fail(rule, Fn(f)+":request-list", c.Pos(ins), "the request list (or a slice sharing its storage) is handed to "+name+", which may reorder or edit it in place: the caller's entry i is no longer the entry verdict i was computed for", "the request list is read-only for the ruler", nil)
+							}
+						}
+					}
+				}
+			}
+		}
+		listWritten(F, dataP, 0)
 		var valid func(root ssa.Value, at ssa.Instruction) bool
 		checked := map[ssa.Value]bool{}
 		valid = func(root ssa.Value, at ssa.Instruction) bool {
